@@ -105,6 +105,11 @@ func c10NewEnv(t testing.TB) *c10Env {
 		t.Fatalf("HARNESS backend: %v", err)
 	}
 	arc, err := database.New(&database.Config{MemoryLimit: "512MB", ThreadCount: 2, MaxConnections: 2, LocalStorageRoot: root}, logger)
+	// database.New bounds its sandbox lock-down with a 5 s context; on an overloaded machine that is start-up
+	// latency, not the property: retry instead of failing the case.
+	for attempt := 0; err != nil && attempt < 7; attempt++ {
+		arc, err = database.New(&database.Config{MemoryLimit: "512MB", ThreadCount: 2, MaxConnections: 2, LocalStorageRoot: root}, logger)
+	}
 	if err != nil {
 		t.Fatalf("HARNESS database.New: %v", err)
 	}
